@@ -1,5 +1,4 @@
-"""Translator for the OAL lexer tables and the keyword-spelling consumers (properties C13, C08).
-
+"""Translator for the OAL lexer tables and the keyword-spelling consumers:
 Reads with `ast` (never imports the repository):
 
   bridgepoint/oal.py        OALParser.keywords, .tokens, .t_ignore, every t_* rule in PLY order (function
